@@ -33,7 +33,7 @@ class Contract:
     def __init__(self, file, qualname, params, requires=None, ensures=None, raises=None, loops=None,
                  modifies=None, make_result=None, calls=None, consts=None, local_sorts=None, call_names=(),
                  static=False, with_handler=None, setup=None, on_yield=None, notes="", ghost=None,
-                 exc_ensures=None, receiver_from_call=False):
+                 exc_ensures=None, receiver_from_call=False, lemma_facts=None, harness=None, returns=None):
         self.file, self.qualname, self.params = file, qualname, params
         self.requires, self.ensures, self.raises = requires, ensures, raises or {}
         self.loops = loops or {}
@@ -50,6 +50,13 @@ class Contract:
         self.ghost = ghost or {}
         self.exc_ensures = exc_ensures  # lambda S, a, exc_cls: clauses checked on every raise path
         self.receiver_from_call = receiver_from_call
+        self.lemma_facts = lemma_facts  # lambda S, a: [(lemma name, instance formula)] assumed at entry
+        self.harness = harness
+        self.known_regions = {}
+        if returns is not None and make_result is None:
+            def _mk(eng, st, bound, _spec=returns):
+                return make_symbolic(eng, eng.new_base("ret:" + qualname), _spec, st, set())
+            self.make_result = _mk
 
     @property
     def key(self):
@@ -151,6 +158,7 @@ class FunctionRun:
         self.lengths = []
         self.scalars = []
         self.inputs = {}
+        self.lemmas_used = set()
 
 
 def generate(contract, registry=REG, finite=None, grid=None):
@@ -182,6 +190,12 @@ def generate(contract, registry=REG, finite=None, grid=None):
         if contract.requires is not None:
             ns = eng.namespace(st, entry=entry)
             for _, f in normalize_clauses(contract.requires(S, ns)):
+                st = st.assume(S.b(f))
+        if contract.lemma_facts is not None:
+            ns = eng.namespace(st, entry=entry)
+            for lname, f in contract.lemma_facts(S, ns):
+                run.assumptions.add(f"uses lemma '{lname}' (proved separately by induction in the same check)")
+                run.lemmas_used.add(lname)
                 st = st.assume(S.b(f))
         entry.pc = list(st.pc)
         fninfo = {"ordinals": loop_ordinals(fn), "entry": entry, "node": fn}
